@@ -10,7 +10,7 @@ func init() {
 				Reach:     []string{"history of several requests", "unplannable operation"},
 				Functions: []string{"planner.(*CachedPlanner).Plan", "planner.(*CachedPlanner).hash", "planner.(*CachedPlanner).clean", "planner.NewCachedPlanner", "planner.SequentialPlanner.Plan", "format.(*BufferedFormatter).FormatSelectionSet"}},
 			{Name: "cache-concurrent", Pkg: "planner", Files: []string{"planner/c14.go"}, Entry: "VerifCacheConcurrent", Mode: "all", Race: true, Native: true,
-				Reach:     []string{"concurrent plans"},
+				Reach:     []string{"concurrent plans", "concurrent plans on a used cache"},
 				Functions: []string{"planner.(*CachedPlanner).Plan", "planner.(*CachedPlanner).clean"}},
 			{Name: "cache-through-gateway", Pkg: ".", Files: []string{"root/fed.go", "root/c01.go", "root/c14g.go"}, Entry: "VerifCacheGateway", Mode: "seq", Native: true,
 				Quick: map[string]int{"hmax": 2}, Thorough: map[string]int{"hmax": 3},
